@@ -111,11 +111,14 @@ var propertyConfigs = map[string]*propertyConfig{
 		ID: "C17", Packages: []string{"./ring/...", "./utils/sampling/..."}, Level: "proof",
 		Explain: "Uniform sampling and the shared byte buffer.  ring.UniformSampler.read (the body of Read and ReadAndAdd) is under contract on the typed AST: every value handed to the store callback is below the modulus of its row (clause `fnparam f requires b < c`, for every generator output: rejection under the mask), " +
 			"the 1024-byte buffer is only read in aligned 8-byte words inside its bounds, and the read pointer shared between level views satisfies 0 <= ptr <= len, ptr % 8 == 0 on exit whenever it did on entry (so: for every interleaving of calls on views sharing the buffer); no index is out of range and no sanity panic is reachable.  " +
-			"randInt32 / randInt64 / RandUniform: the result is within the mask / below the bound for every generator output.  Plus the copy contracts of the samplers (what AtLevel / WithPRNG share and what they own).",
+			"randInt32 / randInt64 / RandUniform: the result is within the mask / below the bound for every generator output.  " +
+			"Ternary sampling with a density (TernarySampler.sampleProba, the body of Read and ReadAndAdd): every value handed to the store callback is the table entry lut[j][index] of ONE index in {0,1,2} per coefficient, together with the modulus of row j, so the sampled integer is the same in every RNS row; " +
+			"in the density-1/2 path the zero / non-zero decision of coefficient i is bit i of the first N/8 bytes the generator delivers to this call and its sign is bit i of the NEXT N/8 bytes (ghost variable `draws` = bytes drawn so far, stream(k) = the k-th byte drawn; sampling.PRNG.Read is ASSUMED to deliver the next len(p) bytes of that sequence): the coefficient is a function of the generator output, hence identical for two samplers fed the same stream, and a buffer that is never filled is a violation.  Plus the copy contracts of the samplers (what AtLevel / WithPRNG share and what they own).",
 		Assumptions: []string{
 			"sampling.PRNG.Read fills its buffer and returns no error (ASSUMED contract; the keyed XOF fails only after 2^32 bytes); encoding/binary decoding is assumed to return some uint64 / uint32",
 			"the callbacks passed by Read (`b`) and ReadAndAdd (`CRed(a+b, c)`) are closures: their bodies are not under contract; the claim is about the value they receive",
-			"NOT decided: uniformity and independence of the output (statistical), determinism from a seed, Gaussian sampling (floating point ziggurat, rounding, big-number path), ternary sampling (Knuth-Yao matrix, exact Hamming weight, sign balance)",
+			"TernarySampler.kysampling (Knuth-Yao walk for densities other than 1/2) is ASSUMED to return a coefficient bit and a sign bit; Ring.ModuliChain is ASSUMED to list the moduli in order; float comparisons (invDensity == 0.5) are unknown booleans, the same one for the same source text",
+			"NOT decided: uniformity and independence of the output (statistical), Gaussian sampling (floating point ziggurat, rounding, big-number path), the Knuth-Yao matrix, exact Hamming weight (sampleSparse), sign balance",
 		},
 		Trusted: stdTrusted, Simple: copyAndLanes("C17"),
 	},
